@@ -72,7 +72,15 @@ def match_writers(cx):
                     return False
                 b = match(("bin", "Eq", V("a"), V("b")), l[1])
                 return bool(b) and (is_f(b["a"], "RaftCore.id") or is_f(b["b"], "RaftCore.id"))
-            ok = require(cx, s, key, "self-persist idiom: `matched := raft_log.persisted` only for the node's own progress (id == self.id)", self_only, kill=False, detail={"value": show(v)})
+            # the node's own progress: reached under `id == self.id` while iterating, or looked up by self.id
+            pl = s.data["stmt"]["place"]
+            base = cx.prog.A(s.fn).expr_place({"l": pl["l"], "p": pl["p"][:-1]}, s.at)
+            own_lookup = any(x[0] == "call" and x[1].rsplit("::", 1)[-1] in ("get_mut", "get") and "ProgressTracker" in x[1] and len(x[2]) == 2 and is_f(x[2][1], "RaftCore.id") for x in walk(base))
+            if own_lookup:
+                cx.ok(key, "self-persist idiom: `matched := raft_log.persisted` on the progress looked up by self.id", s, value=show(v))
+                ok = True
+            else:
+                ok = require(cx, s, key, "self-persist idiom: `matched := raft_log.persisted` only for the node's own progress (id == self.id)", self_only, kill=False, detail={"value": show(v)})
             if ok:
                 kinds.add("self-persist")
         else:
